@@ -15,8 +15,8 @@ mutual
 def printJ : JType → String
   | .prim p => p
   | .cls pkg name args =>
-    let q := if pkg == ["java", "lang"] then name else ".".intercalate (pkg ++ [name])
-    if args.isEmpty then q else q ++ "<" ++ ", ".intercalate (printJs args) ++ ">"
+    let q := if pkg == ["java", "lang"] then name else joinS "." (pkg ++ [name])
+    if args.isEmpty then q else q ++ "<" ++ joinS ", " (printJs args) ++ ">"
   | .arr e => printJ e ++ "[]"
 def printJs : List JType → List String
   | [] => []
@@ -30,7 +30,7 @@ def primDesc : String → String
 /-- JVM field descriptor of the erasure of a type -/
 def desc : JType → String
   | .prim p => primDesc p
-  | .cls pkg name _ => "L" ++ "/".intercalate (pkg ++ [name]) ++ ";"
+  | .cls pkg name _ => "L" ++ joinS "/" (pkg ++ [name]) ++ ";"
   | .arr e => "[" ++ desc e
 
 def descO : Option JType → String
@@ -39,7 +39,7 @@ def descO : Option JType → String
 
 /-- JVM method descriptor -/
 def methodDesc (params : List JType) (ret : Option JType) : String :=
-  "(" ++ String.join (params.map desc) ++ ")" ++ descO ret
+  "(" ++ concatS (params.map desc) ++ ")" ++ descO ret
 
 /-- the C type a native method's parameter / result of this Java type has (JNI spec, chapter 3) -/
 def jniCType : JType → String
@@ -73,9 +73,14 @@ def mangleL : List Char → List Char
 
 def mangle (s : String) : String := String.ofList (mangleL s.toList)
 
+/-- `Java_<escaped package components and class>_<escaped method>` from the structured class name (package components
+    and the binary simple name, nested classes with `$`) -/
+def nativeSymbolL (segments : List String) (method : String) : String :=
+  "Java_" ++ joinS "_" (segments.map mangle) ++ "_" ++ mangle method
+
 /-- `Java_<mangled fully-qualified class>_<mangled method>`; `cls` is the binary name with `/` separators
     (nested classes with `$`) -/
 def nativeSymbol (cls : String) (method : String) : String :=
-  "Java_" ++ "_".intercalate ((cls.splitOn "/").map mangle) ++ "_" ++ mangle method
+  "Java_" ++ joinS "_" ((cls.splitOn "/").map mangle) ++ "_" ++ mangle method
 
 end Pydjinni.Gen
